@@ -700,6 +700,17 @@ fn ranges_case(is_int: bool, ch: &mut Choices<'_>, st: &mut Stats) -> CaseResult
         for x in [i64::MIN, -1, 0, 1, i64::MAX] {
             probes.insert(Pt::int(x));
         }
+        // values that agree with an item boundary in their low 16 / 32 bits only
+        // (narrowed storage or truncating casts)
+        let bounds: Vec<Pt> = probes.iter().copied().collect();
+        for p in bounds {
+            if p.fam == Fam::Int {
+                let x = p.as_i64();
+                for y in [x.wrapping_add(1 << 32), x.wrapping_sub(1 << 32), x ^ (1 << 32), x.wrapping_add(1 << 16), x ^ (1 << 63), x ^ (1 << 31)] {
+                    probes.insert(Pt::int(y));
+                }
+            }
+        }
     } else {
         for x in [0u32, u32::MAX] {
             probes.insert(Pt::v4(x));
@@ -774,6 +785,19 @@ fn bytes_case(ch: &mut Choices<'_>, st: &mut Stats) -> CaseResult {
             3 if !items.is_empty() => ch.pick(&items).clone(),
             4 => Vec::new(),
             _ => (0..1 + ch.draw(8)).map(|_| ch.byte()).collect(),
+        };
+        // some members are stretched across size thresholds (63..65, 84, 128, 255..257, 300 bytes)
+        let it = if ch.chance(1, 6) {
+            let n = *ch.pick(&[63usize, 64, 65, 84, 127, 128, 129, 255, 256, 257, 300]);
+            let seed: Vec<u8> = if it.is_empty() { vec![b'h'] } else { it.clone() };
+            let mut v = it;
+            while v.len() < n {
+                let k = v.len();
+                v.push(seed[k % seed.len()]);
+            }
+            v
+        } else {
+            it
         };
         items.push(it);
     }
